@@ -99,8 +99,8 @@ def run_cases(mod, cases, res, want_samples=4):
                 res.bump(k)
         staged.append((case, obs, fs, req))
         if req is not None:
-            idx.append(len(staged) - 1); reqs.append(f"{mod.PID} {req}")
-    replies = leanio.run_driver(reqs) if reqs else []
+            idx.append(len(staged) - 1); reqs.append(req)
+    replies = leanio.run_driver(mod.PID, reqs) if reqs else []
     cmp_fn = getattr(mod, "compare", None)
     for j, rep in zip(idx, replies):
         case, obs, fs, req = staged[j]
@@ -152,7 +152,7 @@ def main_check(pid, tier, seed, replay=None):
     if replay:
         payload = json.load(open(replay))
         cases = payload.get("cases") or ([payload["case"]] if payload.get("case") is not None else [])
-        ok_b, log = leanio.lake_build(["mouette_model"])
+        ok_b, log = leanio.lake_build([leanio.exe_target(pid)])
         res = Result()
         run_cases(mod, cases, res)
         bad = [f for _, f in res.findings] + [m[3] for m in res.mismatches] + [e for _, e in res.harness_errors]
@@ -175,7 +175,7 @@ def main_check(pid, tier, seed, replay=None):
                 broken.append({"kind": "translator", "name": s["site"], "detail": s.get("detail", "")})
 
     # ---- 2. build theorems + driver ----------------------------------------------------------
-    targets = list(mod.LEAN_MODULES) + ["mouette_model"]
+    targets = list(mod.LEAN_MODULES) + [leanio.exe_target(pid)]
     ok_build, log = leanio.lake_build(targets)
     if not ok_build:
         tail = "\n".join([l for l in log.split("\n") if "error" in l.lower()][:20]) or log[-1500:]
@@ -202,7 +202,7 @@ def main_check(pid, tier, seed, replay=None):
 
     # ---- 4. correspondence + oracle ------------------------------------------------------------
     res = Result()
-    driver_ok = os.path.exists(leanio.EXE)
+    driver_ok = os.path.exists(leanio.exe_path(pid))
     corpus = []
     cdir = os.path.join(ROOT, "corpus", pid)
     if os.path.isdir(cdir):
@@ -223,7 +223,7 @@ def main_check(pid, tier, seed, replay=None):
     try:
         run_cases(mod, corpus + gen, res)
     except RuntimeError as e:
-        broken.append({"kind": "driver", "name": "mouette_model", "detail": str(e)})
+        broken.append({"kind": "driver", "name": leanio.exe_target(pid), "detail": str(e)})
     # open known findings: re-run their witnesses
     known_seen = []
     for e in opens:
@@ -316,7 +316,7 @@ def _write_evidence(mod, tier, seed, t0, res, thms, obligations, discharged, sit
         "property_id": mod.PID, "tier": tier, "seed": seed, "level": "proof",
         "coverage": {
             "obligations": obligations, "discharged": discharged,
-            "checker_cmd": "lake build " + " ".join(mod.LEAN_MODULES) + " mouette_model && lake env lean Mouette/Audit/Audit_*.lean  (Lean 4.33.0 kernel; axioms collected per theorem from the compiled environment)",
+            "checker_cmd": "lake build " + " ".join(mod.LEAN_MODULES) + " " + leanio.exe_target(mod.PID) + " && lake env lean Mouette/Audit/Audit_*.lean  (Lean 4.33.0 kernel; axioms collected per theorem from the compiled environment)",
             "trusted_base": list(getattr(mod, "TRUSTED", [])),
             "theorems": {t: axs for t, axs in sorted(thms.items())},
             "evaluations": res.evaluations,
